@@ -417,4 +417,42 @@ theorem flatten_of_unflat (l : List (Item α)) (s : Flat α) (h : unflat l = som
       exact ⟨by simp [flatten, flattenHead, h1], h2⟩
   · cases h
 
+/-! ### reduction commutes with homomorphisms (trees → values) -/
+
+def Item.map {α β : Type} (h : α → β) : Item α → Item β
+  | .opnd a => .opnd (h a)
+  | .oper o => .oper o
+
+structure AlgHom {α β : Type} [Alg α] [Alg β] (h : α → β) : Prop where
+  neg : ∀ a, h (Alg.neg a) = Alg.neg (h a)
+  bin : ∀ o a b, h (Alg.bin o a b) = Alg.bin o (h a) (h b)
+
+theorem passAux_map {β : Type} [Alg β] (h : α → β) (hh : AlgHom h) (k : Op) (pre rest : List (Item α)) :
+    passAux k (pre.map (Item.map h)) (rest.map (Item.map h))
+      = (passAux k pre rest).map (List.map (Item.map h)) := by
+  fun_induction passAux k pre rest
+  all_goals (rw [passAux.eq_def]; simp_all [Item.map, hh.neg, hh.bin, Except.map])
+
+theorem reduceItems_map {β : Type} [Alg β] (h : α → β) (hh : AlgHom h) (l : List (Item α)) :
+    reduceItems (l.map (Item.map h)) = (reduceItems l).map (List.map (Item.map h)) := by
+  have hp : ∀ k (l : List (Item α)), pass k (l.map (Item.map h)) = (pass k l).map (List.map (Item.map h)) := by
+    intro k l; simpa [pass] using passAux_map h hh k [] l
+  simp only [reduceItems, bind, Except.bind]
+  rw [hp]
+  cases pass Op.pow l with
+  | error e => rfl
+  | ok l1 =>
+    simp only [Except.map]; rw [hp]
+    cases pass Op.div l1 with
+    | error e => rfl
+    | ok l2 =>
+      simp only [Except.map]; rw [hp]
+      cases pass Op.mul l2 with
+      | error e => rfl
+      | ok l3 =>
+        simp only [Except.map]; rw [hp]
+        cases pass Op.sub l3 with
+        | error e => rfl
+        | ok l4 => simp only [Except.map]; rw [hp]; rfl
+
 end TfelVerif.C13
